@@ -4,6 +4,7 @@ import S2T.Props.C06_History
 import S2T.Props.C06_Input
 import S2T.Props.C06_Ambient
 import S2T.Props.C06_Observers
+import S2T.Props.C06_Cells
 /-!
 # C06 — determinism, purity, idempotent observation
 
